@@ -364,7 +364,100 @@ func c20Recover(dir, scratch string, ips []string) string {
 			fmt.Fprintf(&sb, "acct %q %q %q %x\n", a.Login, a.Name, a.Password, a.Access[:])
 		}
 	}
+	if f := c20Continue(scratch); f != "" {
+		return "FAIL:continue:" + f
+	}
 	return sb.String()
+}
+
+// A directory left by a crash must not only load: the stores must keep working on it.  One more update of every kind
+// through the real managers (on the throw-away copy, where leftovers of the interrupted update - temporary files -
+// are still lying around) must succeed and be on disk for the next start; an update that is accepted and then lost
+// is the loss of an acknowledged change.  Returns the store that failed, "" if none.
+func c20Continue(scratch string) string {
+	boardPath := filepath.Join(scratch, "MessageBoard.txt")
+	if b, err := mobius.NewFlatNews(boardPath); err == nil {
+		if _, err := b.Write([]byte("~probe~\r")); err != nil {
+			return "board-write"
+		}
+		b2, err := mobius.NewFlatNews(boardPath)
+		if err != nil {
+			return "board-reload"
+		}
+		b2.Seek(0, 0)
+		if data, _ := io.ReadAll(b2); !bytes.HasPrefix(data, []byte("~probe~\r")) {
+			return "board-lost"
+		}
+	}
+	newsPath := filepath.Join(scratch, "ThreadedNews.yaml")
+	if n, err := mobius.NewThreadedNewsYAML(newsPath); err == nil {
+		if err := n.CreateGrouping(nil, "~probe~", hotline.NewsCategory); err != nil {
+			return "news-write"
+		}
+		n2, err := mobius.NewThreadedNewsYAML(newsPath)
+		if err != nil {
+			return "news-reload"
+		}
+		if _, ok := n2.ThreadedNews.Categories["~probe~"]; !ok {
+			return "news-lost"
+		}
+	}
+	banPath := filepath.Join(scratch, "Banlist.yaml")
+	if bf, err := mobius.NewBanFile(banPath); err == nil {
+		if err := bf.Add("203.0.113.250", nil); err != nil {
+			return "ban-write"
+		}
+		bf2, err := mobius.NewBanFile(banPath)
+		if err != nil {
+			return "ban-reload"
+		}
+		if is, _ := bf2.IsBanned("203.0.113.250"); !is {
+			return "ban-lost"
+		}
+	}
+	users := filepath.Join(scratch, "Users") + "/"
+	if am, err := mobius.NewYAMLAccountManager(users); err == nil {
+		l := am.List()
+		sort.Slice(l, func(i, j int) bool { return l[i].Login < l[j].Login })
+		for _, a := range l { // rewriting every account in place (what SetUser does) must still work
+			a.Name = "~probe~ " + a.Name
+			if err := am.Update(a, a.Login); err != nil {
+				return "account-update"
+			}
+		}
+		if err := am.Create(hotline.Account{Login: "~probe~", Name: "p", Password: "x"}); err != nil {
+			return "account-create"
+		}
+		am2, err := mobius.NewYAMLAccountManager(users)
+		if err != nil {
+			return "account-reload"
+		}
+		if am2.Get("~probe~") == nil {
+			return "account-lost"
+		}
+		for _, a := range l {
+			if b := am2.Get(a.Login); b == nil || !strings.HasPrefix(b.Name, "~probe~ ") {
+				return "account-update-lost"
+			}
+		}
+		// ... and so must deleting every account that was there (the probe account stays, a directory without any
+		// account does not load): none of them may come back
+		for _, a := range l {
+			if err := am2.Delete(a.Login); err != nil {
+				return "account-delete"
+			}
+		}
+		am3, err := mobius.NewYAMLAccountManager(users)
+		if err != nil {
+			return "account-reload-after-delete"
+		}
+		for _, a := range l {
+			if am3.Get(a.Login) != nil {
+				return "account-back-after-delete"
+			}
+		}
+	}
+	return ""
 }
 
 func genC20(cs *CaseSet, rng *Rng, tier string, dir string) {
